@@ -28,7 +28,7 @@ func registerC16() {
 		},
 		MinNontrivial: 300,
 		Families: []lib.Family{
-			{Name: "streams", N: func(t string) uint64 { return tierN(t, 6000, 300000) }, Run: c16Case},
+			{Name: "streams", N: func(t string) uint64 { return tierN(t, 40000, 1000000) }, Run: c16Case},
 		},
 	})
 }
